@@ -76,7 +76,7 @@ fn alphabet(stave: bool, tier: Tier) -> Vec<Sym> {
             if stave && !matches!(*id, 0x20 | 0x21 | 0x40) && !matches!(ci, 0 | 1 | 7) {
                 continue;
             }
-            if stave && !tier.is_thorough() && (ci > 8 || (!matches!(*id, 0x20 | 0x40) && ci != 1) || matches!(*id, 0x28 | 0x46 | 0x5E | 0x60)) {
+            if stave && !tier.is_thorough() && (ci > 8 || (!matches!(*id, 0x20 | 0x40) && ci != 1 && !(ci == 7 && matches!(*id, 0x21 | 0x29 | 0x3F | 0x47))) || matches!(*id, 0x28 | 0x46 | 0x5E | 0x60)) {
                 continue;
             }
             v.push(Sym::W(words::data_word(*id, *c)));
@@ -128,13 +128,17 @@ impl Sys for WordProduct {
         let full: Vec<Sym> = self.prefix.iter().chain(hist.iter()).cloned().collect();
         let mk = |p: String| Viol { signature: format!("panic:{}", val::panic_site(&p)), description: format!("{p} after the word/packet sequence {}", describe(&full)) };
         let mut st = val::CdpStepper::new(self.cfg);
-        st.set_rdh(&rdh_of(0, 0, self.first_fee, 2).encode(), 0).map_err(mk)?;
-        let mut pos = 0u64;
+        // offsets start with a hexadecimal letter: every message must survive the collector's offset parser
+        let mut pos = 0xA_0000u64;
+        st.set_rdh(&rdh_of(0, 0, self.first_fee, 2).encode(), pos).map_err(mk)?;
         let mut nmsg = 0;
+        let mut all_msgs: Vec<fastpasta::stats::StatType> = Vec::new();
         for s in self.prefix.iter().chain(hist.iter()) {
             match s {
                 Sym::W(w) => {
-                    nmsg = st.word(w).map_err(mk)?.len();
+                    let m = st.word(w).map_err(mk)?;
+                    nmsg = m.len();
+                    all_msgs.extend(m);
                 }
                 Sym::P(stop, page, fee, fmt) => {
                     pos += 0x1000;
@@ -144,6 +148,25 @@ impl Sys for WordProduct {
             }
         }
         let fp = val::guarded(|| st.v.verif_fingerprint()).map_err(mk)?;
+        // what the statistics thread does with these messages: collect, finalize (sort by offset, extract codes)
+        if !all_msgs.is_empty() {
+            val::guarded(|| {
+                let mut c = fastpasta::stats::stats_collector::StatsCollector::with_alpide_stats();
+                c.collect(fastpasta::stats::StatType::SystemId(fastpasta::stats::SystemId::ITS));
+                // the analysis thread reports the layer/stave of every RDH before the packet reaches a validator
+                c.collect(fastpasta::stats::StatType::LayerStaveSeen { layer: ((self.first_fee >> 12) & 7) as u8, stave: (self.first_fee & 0x3F) as u8 });
+                for s in &full {
+                    if let Sym::P(_, _, fee, _) = s {
+                        c.collect(fastpasta::stats::StatType::LayerStaveSeen { layer: ((fee >> 12) & 7) as u8, stave: (fee & 0x3F) as u8 });
+                    }
+                }
+                for m in all_msgs {
+                    c.collect(m);
+                }
+                c.finalize(false);
+            })
+            .map_err(|p| Viol { signature: format!("panic:collector:{}", val::panic_site(&p)), description: format!("the statistics collector panicked on the messages of the sequence {}: {p}", describe(&full)) })?;
+        }
         Ok(StepOut { key: fp, obs: nmsg })
     }
 }
